@@ -17,6 +17,11 @@ HAND = [
     ("pp", ""),
     ("sv", "timeprecision 1ps; timeunit 1ns;\nmodule m; timeprecision 1ps;\n timeunit 1ns; wire w; endmodule\n"),
     ("sv", "module m; clocking cb @(posedge clk); input #1 output #2 d; default input #1step output negedge; endclocking endmodule\n"),
+    # nodes with many fields, all of them present (the widest tuples of the tree)
+    ("sv", "interface class I; endclass\ninterface class J; endclass\nclass B; endclass\nvirtual class automatic C #(int P = 1) extends B implements I, J; int x; endclass : C\n"),
+    ("sv", "module automatic m import p::*; #(parameter P = 1) (input logic a, output logic b); timeunit 1ns; endmodule : m\n"),
+    ("sv", "package p; endpackage\nprogram automatic pr import p::*; #(parameter Q = 2) (input a); endprogram : pr\ninterface automatic it import p::*; #(parameter R = 3) (input a); endinterface : it\n"),
+    ("sv", "module m; function automatic int f(input int a, output int b); return a; endfunction : f\n task automatic t(input int a); endtask : t\n covergroup cg @(posedge c); endgroup : cg endmodule\n"),
     # constructs whose nodes are assembled by hand-written folds (chains, left-recursive expressions)
     ("sv", "module m; initial begin x = obj.a().b().c().d(); y = o.f(1).g(2, 3).h().i(); end endmodule\n"),
     ("sv", "module m; assign z = a + b * c - d / e % f ** g; assign w = p ? q : r ? s : t; assign v = a[1][2].b[3].c; endmodule\n"),
